@@ -51,6 +51,10 @@ pub struct ExecCfg {
     /// the case's outcome on the real tokio runtime (paused clock) is compared with the explored
     /// set; off for programs whose timers are shorter than that clock's granularity
     pub real_crosscheck: bool,
+    /// tokio only: the first poll of a task's join handle may answer Pending and wake itself (the
+    /// polling task has used up its cooperative budget) - a choice; the other runtimes' handles
+    /// have no such budget and never ask
+    pub coop_is_choice: bool,
 }
 
 impl Default for ExecCfg {
@@ -67,6 +71,7 @@ impl Default for ExecCfg {
             cancel: None,
             spin_is_outcome: false,
             real_crosscheck: true,
+            coop_is_choice: false,
         }
     }
 }
@@ -577,6 +582,10 @@ impl hannibal::verif::Backend for BackendImpl {
     }
     fn yield_holding_lock(&self) -> bool {
         self.0.st.borrow().cfg.yield_holding_lock
+    }
+    fn coop_budget_exhausted(&self) -> bool {
+        let c = self.0.st.borrow().cfg.coop_is_choice;
+        c && self.0.choose(2) == 1
     }
 }
 
